@@ -19,6 +19,7 @@ package main
 import (
 	"bytes"
 	"fmt"
+	"io"
 	"os"
 	"path/filepath"
 	"runtime"
@@ -27,6 +28,7 @@ import (
 	"strconv"
 	"strings"
 	"syscall"
+	"testing/iotest"
 	"time"
 	"unsafe"
 
@@ -155,10 +157,24 @@ func (s scanResult) String() string {
 }
 
 // c07Scan runs seqio.NewAutoScanner over data to the end.
-func c07Scan(data []byte) scanResult {
+func c07Scan(data []byte) scanResult { return c07ScanFrom(data, 0) }
+
+// c07ScanFrom: mode 0 — a bytes.Reader; 1 — one byte per Read; 2 — small chunks, the last one
+// returned together with io.EOF; 3 — chunks of 4095 / 4097 bytes (around the read size of the
+// parser state).  Every mode is a legal io.Reader: the records and the verdict must not depend on it.
+func c07ScanFrom(data []byte, mode int) scanResult {
 	var res scanResult
 	v := guarded(func() string {
-		sc := seqio.NewAutoScanner(bytes.NewReader(data))
+		var rd io.Reader = bytes.NewReader(data)
+		switch mode {
+		case 1:
+			rd = iotest.OneByteReader(bytes.NewReader(data))
+		case 2:
+			rd = iotest.DataErrReader(&chunkReader{data: data, sizes: []int{7, 1, 13, 64, 3}})
+		case 3:
+			rd = &chunkReader{data: data, sizes: []int{4095, 4097, 1, 4096}}
+		}
+		sc := seqio.NewAutoScanner(rd)
 		n := 0
 		for sc.Scan() {
 			seq := sc.Value()
@@ -348,6 +364,21 @@ func (c *c07Ctx) scanCase(class string, data []byte, mustFail bool) scanResult {
 		r.fail(Failure{Oracle: "the scanner never panics and never hangs (" + class + ")", Op: "scan.auto " + encBytes(small),
 			Got: res.verdict, Want: "records or an error value"})
 		return res
+	}
+	// the same bytes through other legal io.Readers (short reads, data together with io.EOF)
+	if len(data) < 400 || c.nScan%9 == 0 {
+		for mode := 1; mode <= 3; mode++ {
+			if mode == 1 && len(data) > 1500 && c.nScan%45 != 0 {
+				continue
+			}
+			alt := c07ScanFrom(data, mode)
+			r.count(fmt.Sprintf("scan/reader-mode%d", mode))
+			if alt.String() != res.String() {
+				r.fail(Failure{Oracle: fmt.Sprintf("the scan does not depend on how the io.Reader cuts the stream into reads (mode %d: 1 = one byte per Read, 2 = small chunks and data with io.EOF, 3 = chunks around 4096) (%s)", mode, class),
+					Op: op, Got: alt.String(), Want: res.String()})
+				break
+			}
+		}
 	}
 	facts := c07Facts(data)
 	nGb := 0
@@ -1685,4 +1716,28 @@ func propC07(r *Run) {
 		"a record with a CONTIG line and no sequence (CON division) is returned with Len 0 whatever its LOCUS line declares; every other returned record must have Len = declared length")
 	r.sample("scan.auto <" + corpus[0].name + " cut at every offset>")
 	r.sample("scan.auto " + encStr("LOCUS       X                  0 bp    DNA     linear   UNA 01-JAN-2000\nDBLINK      X:\n//\n"))
+}
+
+// chunkReader hands out data in chunks of the given sizes (cyclically).
+type chunkReader struct {
+	data  []byte
+	sizes []int
+	k     int
+}
+
+func (c *chunkReader) Read(p []byte) (int, error) {
+	if len(c.data) == 0 {
+		return 0, io.EOF
+	}
+	n := c.sizes[c.k%len(c.sizes)]
+	c.k++
+	if n > len(p) {
+		n = len(p)
+	}
+	if n > len(c.data) {
+		n = len(c.data)
+	}
+	copy(p, c.data[:n])
+	c.data = c.data[n:]
+	return n, nil
 }
